@@ -5,12 +5,13 @@ Engine interface (see harness/run_check.py).  The work is split by importer:
   C20_meadows.py  Meadows file names and .mat / .json loading   (io/meadows.py)
   C20_mne.py      MNE epochs -> TemporalDataset                 (io/mne.py)
   C20_dm.py       HRF design matrix                             (io/fmriprep.py, io/hrf.py)
-  C20_spm.py      SPM high-pass filter, residuals, relocation   (io/spm.py)
+  C20_spm.py      SPM high-pass filter, residuals, relocation, SPM.mat  (io/spm.py)
+  C20_tree.py     fMRIPrep runs in a real BIDS tree             (io/bids.py, io/fmriprep.py)
 Every case has a 'kind' that selects the sub-engine.
 """
 import json
 from lean import first_diff
-from engines import C20_bids, C20_meadows, C20_mne, C20_dm, C20_spm
+from engines import C20_bids, C20_meadows, C20_mne, C20_dm, C20_spm, C20_tree
 
 PROPERTY = 'C20'
 LEVEL = 'proof'
@@ -21,7 +22,9 @@ THEOREMS = [P + n for n in (
     'meadows_segments', 'meadows_sort_labelled', 'meadows_components',
     'epochs_mapping', 'mne_descriptors',
     'columns_range_one_mean_zero', 'dm_dof', 'confounds_flagged', 'dm_one_column_per_condition',
-    'spm_filter_projection', 'spm_filter_runs_independent', 'spm_filter_idempotent')]
+    'spm_filter_projection', 'spm_filter_runs_independent', 'spm_filter_idempotent',
+    'derivative_files_spec', 'dataset_descriptors_exact', 'normalise_scale_invariant',
+    'reg_index_one_based', 'parse_reg_name')]
 RULE = ('cases come from one PRNG and five sub-generators: BIDS paths built from entity records by '
         'an independent formatter (all 64 presence patterns of ses/task/run/space/desc/derivative x '
         'random and adversarial labels, plus normpath noise and out-of-grammar paths); Meadows names '
@@ -29,9 +32,15 @@ RULE = ('cases come from one PRNG and five sub-generators: BIDS paths built from
         'multi task; 2-6 stimuli, 1-4 RDMs, sort on/off) plus the rejected combinations; real '
         'mne.EpochsArray objects (also through a FIF file); event tables x TR x volumes x confound '
         'tables (with n/a columns); SPM runs with exactly orthonormal rational filter bases '
-        '(Householder columns).  A case is non-trivial unless it is an out-of-grammar name; '
+        '(Householder columns); whole SPM.mat files written by the harness (1-3 sessions) through '
+        'get_info_from_spm_mat / get_betas / get_residuals; BIDS trees written by the harness (1-5 runs, '
+        'every presence pattern of ses/task/run/space, task filters) through find_fmriprep_runs and every '
+        'FmriprepRun accessor, file contents being a function of the path.  Each sub-generator starts '
+        'with a fixed skeleton of directed cases reaching every tag of BRANCHES, then the random stream.  '
+        'A case is non-trivial unless it is an out-of-grammar name; '
         'distinct = distinct JSON of the case')
-BRANCHES = C20_bids.BRANCHES + C20_meadows.BRANCHES + C20_mne.BRANCHES + C20_dm.BRANCHES + C20_spm.BRANCHES
+BRANCHES = (C20_bids.BRANCHES + C20_meadows.BRANCHES + C20_mne.BRANCHES + C20_dm.BRANCHES
+            + C20_spm.BRANCHES + C20_tree.BRANCHES)
 ASSUMPTIONS = [
     'os.path.normpath is the identity on relative paths without empty, "." or ".." components '
     '(the model drops empty and "." components, ".." is outside the BIDS grammar)',
@@ -49,17 +58,18 @@ TRUSTED_EXTRA = [
 
 SUB = {'bids': C20_bids, 'meadows_name': C20_meadows, 'meadows_load': C20_meadows,
        'mne': C20_mne, 'mne_name': C20_mne, 'dm': C20_dm,
-       'spm': C20_spm, 'spm_resid': C20_spm, 'relocate': C20_spm}
+       'spm': C20_spm, 'spm_resid': C20_spm, 'relocate': C20_spm, 'spm_info': C20_spm,
+       'tree': C20_tree}
 
 
 def generate(rng, tier):
-    for mod in (C20_bids, C20_meadows, C20_mne, C20_dm, C20_spm):
+    for mod in (C20_bids, C20_meadows, C20_mne, C20_dm, C20_spm, C20_tree):
         yield from mod.gen(rng, tier)
 
 
 def search(rng, tier):
     # failing-input search: the numeric importers first (cheap, most fragile), then the names
-    for mod in (C20_spm, C20_dm, C20_meadows, C20_mne, C20_bids):
+    for mod in (C20_spm, C20_dm, C20_tree, C20_meadows, C20_mne, C20_bids):
         yield from mod.gen(rng, 'quick')
 
 
